@@ -712,7 +712,7 @@ def main(tier, seed):
                      "amaranth.lib.io.FFBuffer.elaborate", "amaranth.hdl._ir (IOBufferInstance lowering)", "amaranth.back.rtlil ($tribuf, io connects)"]
     rep.bounds = {"simulation_ports": "all widths 0..3 (4 thorough) x all inversion masks x all legal direction pairs x {Buffer, FFBuffer}; plus seeded port expressions "
                   "(slice, index, ~, +; depth <= 3)", "real_ports": "widths 0..3, all masks, single-ended and differential, all buffer directions, via the emitted RTLIL",
-                  "outside": "DDRBuffer, vendor platform overrides; the double-use error path"}
+                  "outside": "DDRBuffer data paths (only its direction checks), vendor platform overrides"}
     rep.stubs = ["HSignalState", "compile recorder", "if-converting interpreter", "vlib.rtlil_smt ($tribuf: z when disabled)"]
     rep.assumptions = []
     rep.rule = "one obligation per (port expression, buffer direction, registered or not); non-trivial when the port is at least 1 bit wide"
